@@ -40,6 +40,8 @@ struct Req {
 	std::vector<int> cookie_quoted;   // per cookie: send value quoted
 	std::string content_type;         // empty = none
 	bool has_body = false; std::string body;
+	struct Part { std::string name, filename, ctype, content; bool has_filename = false; bool quoted = true; };
+	std::vector<Part> parts; std::string boundary;   // multipart/form-data body (body is built from these)
 	bool exotic = false;              // outside the model's sub-language: only metamorphic comparison applies
 	std::string raw_extra_headers;    // exotic: verbatim header lines (folded, odd spacing), HTTP only
 };
@@ -50,7 +52,7 @@ inline std::string cgi_name(const std::string &h){ std::string n; for(char c:h){
 inline std::string cookie_header(const Req &r){ std::string c; for(size_t i=0;i<r.cookies.size();i++){ if(i) c += "; "; c += r.cookies[i].first + "="; bool q = i < r.cookie_quoted.size() && r.cookie_quoted[i]; c += q ? "\"" + r.cookies[i].second + "\"" : r.cookies[i].second; } return c; }
 
 // what the application must observe -------------------------------------------------
-struct Expect { std::map<std::string,std::string> env; Pairs get, post, cookies; std::string body; bool has_post_form = false; };
+struct Expect { std::map<std::string,std::string> env; Pairs get, post, cookies; std::string body; bool has_post_form = false; std::vector<std::string> files; };
 
 inline bool parse_form(const std::string &s,Pairs &out){
 	out.clear(); size_t p = 0;
@@ -82,6 +84,10 @@ inline Expect expect(const Req &r,int proto,bool http11,bool keepalive_hdr,int p
 	for(auto &c:r.cookies) x.cookies.push_back(c);
 	x.body = r.has_body ? r.body : "";
 	if(r.has_body && r.content_type == "application/x-www-form-urlencoded"){ x.has_post_form = true; parse_form(r.body,x.post); }
+	if(!r.parts.empty() || !r.boundary.empty()){
+		// multipart/form-data: parts with a Content-Type are files, the others are form fields; the raw body is not kept
+		x.body.clear();
+		for(auto &p:r.parts){ if(p.ctype.empty()) x.post.push_back({p.name,p.content}); else x.files.push_back(esc(p.name) + "|" + esc(p.ctype.substr(0,p.ctype.find(';'))) + "|" + esc(p.filename) + "|" + blob(p.content)); } }
 	sort_pairs(x.get); sort_pairs(x.post); sort_pairs(x.cookies);
 	return x;
 }
@@ -98,6 +104,12 @@ inline std::string echo_text(const std::map<std::string,std::string> &env,const 
 	return t;
 }
 
+inline std::string multipart_body(const Req &r){
+	std::string b;
+	for(auto &p:r.parts){ b += "--" + r.boundary + "\r\n"; b += "Content-Disposition: form-data; name=" + (p.quoted ? "\"" + p.name + "\"" : p.name);
+		if(p.has_filename) b += "; filename=\"" + p.filename + "\""; b += "\r\n"; if(!p.ctype.empty()) b += "Content-Type: " + p.ctype + "\r\n"; b += "\r\n" + p.content + "\r\n"; }
+	b += "--" + r.boundary + "--\r\n"; return b;
+}
 // ---------------------------------------------------------------- encoders
 inline std::string http_encode(const Req &r,bool http11,bool keepalive){
 	std::string s = r.method + " " + r.script + r.path + (r.has_query ? "?" + r.query : "") + (http11 ? " HTTP/1.1\r\n" : " HTTP/1.0\r\n");
